@@ -157,11 +157,12 @@ PROPS = {
                         "Go memory model: a data race is two conflicting non-atomic accesses not ordered by a common mutex"],
     },
     "C16": {
-        "proof_files": ["Proofs/ListenFacts.v", "Mutants/ListenRace.v", "Proofs/StartFacts.v", "Proofs/SlotsFacts.v"],
+        "proof_files": ["Proofs/ListenFacts.v", "Mutants/ListenRace.v", "Proofs/StartFacts.v", "Proofs/SlotsFacts.v", "Proofs/SvcFacts.v"],
         "generated": {"cmd": ["start-extract"], "out": "Gen/StartParams.v",
                       "compile": ["Gen/StartParams.v", "Properties/C16_instance.v"], "theorem": "C16_start_instance"},
         "runs": [{"engine": "listen", "args": [], "n_quick": 120, "n_thorough": 5000, "netns": True},
-                 {"engine": "daemon", "args": ["-mode", "bind"], "n_quick": 25, "n_thorough": 300, "netns": True}],
+                 {"engine": "daemon", "args": ["-mode", "bind"], "n_quick": 25, "n_thorough": 300, "netns": True},
+                 {"engine": "daemon", "args": ["-mode", "ops"], "n_quick": 8, "n_thorough": 160, "netns": True}],
         "trivial_tags": [],
         "rule": "1-4 listen addresses (127.0.0.1, 127.0.0.2, ::1), every address independently free / UDP busy / TCP busy / both busy, "
                 "cancellation: none, immediate, after 1 ms, after the listeners are ready, at a random sub-3ms delay; judged by the extracted "
@@ -171,8 +172,9 @@ PROPS = {
                         "fair scheduling by the Go runtime"],
     },
     "C17": {
-        "proof_files": ["Proofs/StoreFacts.v", "Proofs/ConfigFacts.v"],
+        "proof_files": ["Proofs/StoreFacts.v", "Proofs/ConfigFacts.v", "Proofs/FwdTextFacts.v"],
         "runs": [{"engine": "config", "args": [], "n_quick": 200, "n_thorough": 15000, "netns": True},
+                 {"engine": "fwdtext", "args": [], "n_quick": 3000, "n_thorough": 200000},
                  {"engine": "daemon", "args": ["-mode", "svc"], "n_quick": 4, "n_thorough": 60, "netns": True, "mountns": True}],
         "trivial_tags": [r"^rejected$"],
         "rule": "random option sets (repeated -listen, 0-4 -profile entries of every condition kind incl. interfaces and the deprecated -config "
@@ -196,7 +198,7 @@ PROPS = {
                 "real UDP socket into the real reader, half of them exceeding the cap of 1000 names with refreshes of early names, both "
                 "views dumped and compared, views_agree evaluated on the implementation's dump. non-trivial = lookup hit / n>=2 / parsed list",
         "assumptions": ["ASCII input (bytes.ToLower / strings.ToLower are Unicode-aware)",
-                        "one A/AAAA record per mDNS packet (Go map iteration order inside a packet is arbitrary); distinct time stamps"],
+                        "all records of one mDNS packet belong to one name (Go map iteration order inside a packet is arbitrary; one name's entries are order independent); distinct time stamps"],
     },
     "C19": {
         "proof_files": ["Proofs/ResolvFacts.v"],
